@@ -41,11 +41,11 @@ CHECKS = {
     "C05": {
         "level": "exploration",
         "technique": "runtime monitoring: reference-model monitor of the mempool outpoint index in lock-step (bounded-exhaustive + random), plus callback-history checker over direct-drive node histories",
-        "level_text": "TODO",
-        "level_note": "TODO",
-        "unclaimed": "not claimed yet: node-level part of the monitor still being built",
+        "level_text": 'Component: the real MemPool runs in lock-step with map[outpoint]set(txid) over every operation sequence to depth 4 (thorough 5) on 3 outpoints and random length-40 sequences on 4 outpoints / 28 transactions; returned conflict sets, added flag, trusted mark and the index snapshot are compared after every operation. Node level: generated double-spend histories (k-way conflicts, partial overlaps, any arrival order and source, interleaved with confirming blocks) are driven into the real node and the recorded callbacks are judged: each relevant member of a pooled conflict pair is reported unsafe, never safe afterwards, and every unsafe report is justified by a seen transaction sharing an outpoint. Exploration.',
+        "level_note": 'Trusted: overlay snapshot accessor of the mempool index (read under its mutex); Conflicting is only queried for transactions that are not pooled, as the block processor does; node-level engine is sequential.',
         "runs": [
             {"pkg": "internal/state", "test": "TestVerif_C05"},
+            {"pkg": "internal/spynode", "test": "TestVerif_C05Node"},
         ],
     },
     "C14": {
@@ -118,9 +118,8 @@ CHECKS = {
     "C01": {
         "level": "exploration",
         "technique": "runtime monitoring: deterministic-schedule simulation of the real node code against a scripted peer with an online in-sync monitor and a convergence oracle under virtual (aged) time; cross-checked by real Node.Run over loopback TCP",
-        "level_text": "TODO",
-        "level_note": "TODO",
-        "unclaimed": "not claimed yet: monitor under construction",
+        "level_text": "Hundreds (thorough: tens of thousands) of generated scenarios run the real header/block handlers, request state, repositories, ProcessBlock and check() in one goroutine against a scripted well-behaved peer: initial chains of 3-52 or 1000-4000 blocks (crossing the 2000-headers message and 1000-header file limits), start block early/middle/not yet mined, permuted and duplicated block replies, varying block-processor fairness, and steps over extend / reorg (depth <= 15, also among pending blocks and during sync) / clean restart / connection drop. At every settle point the node's full height->hash map must equal the peer's best chain after at most three aged time-out rounds (else a stall with the wire trace as witness); every HandleInSync is judged online against the blocks the node has been told about. Exploration: histories and schedules are unbounded; the schedule is chosen by the PRNG so each finding replays.",
+        "level_note": "Trusted: the scripted peer as the model of a Bitcoin node (getheaders answered from the first known locator hash with up to 2000 headers, header announcements after sendheaders); virtual time by ageing stored request times through an overlay accessor; the harness re-issues the loop bodies of monitorIncoming/processBlocks/Run's reconnect (the L1 engine over real TCP cross-checks this).",
         "runs": [
             {"pkg": "internal/spynode", "test": "TestVerif_C01"},
         ],
@@ -138,11 +137,28 @@ CHECKS = {
     "C03": {
         "level": "exploration",
         "technique": "runtime monitoring: offline exactly-once / completeness checker over recorded HandleTx callbacks against generator ground truth, for generated delivery histories driven directly into the real transaction and block processing code",
-        "level_text": "TODO",
-        "level_note": "TODO",
-        "unclaimed": "not claimed yet: monitor under construction",
+        "level_text": "Thousands of generated delivery histories (inv+tx or bare tx from the trusted peer and two untrusted peers, local submission, several sources for one tx, processing delayed in the channel, confirmation with seen and unseen transactions, re-announcement after confirmation, clean restart; relevant through output push / input push / hashed push or irrelevant; independent or chained) are driven into the real unconfirmed-tx and block processing code; the recorded HandleTx callbacks of both handlers are judged against the generator's ground truth: nothing irrelevant, spent outputs equal the UTXO universe per input, at most 1+orphanings deliveries as new, at least one when seen in sync or in a processed block. Exploration: history space unbounded.",
+        "level_note": 'Trusted: generator ground truth (relevance by construction, UTXO universe), fake OutputFetcher; the harness re-issues the tx-processor and block-processor loop bodies sequentially (no goroutine races in this engine).',
         "runs": [
             {"pkg": "internal/spynode", "test": "TestVerif_C03"},
+        ],
+    },
+    "C04": {
+        "level": "exploration",
+        "technique": "runtime monitoring: independent merkle-path verifier run over every confirmation notification of generated blocks, plus a no-effect monitor (height, callbacks) for corrupted block bodies, driven directly into the real block handler and ProcessBlock",
+        "level_text": "Generated blocks of 1..40 and 63..66 transactions (every odd row count at every tree level) with generated sets and positions of relevant transactions, new or previously delivered, as MsgBlock and as the streaming MsgParseBlock, are processed by the real node; every confirmation notification is checked with the harness' own verifier against the merkle root of the header the node holds (true index, depth 0, the right notification kind, exactly one). For five kinds of body corruption under an unchanged header the monitor demands no height change and no callback. Exploration: block shapes are unbounded; sizes cover all duplication patterns up to 66 leaves.",
+        "level_note": "Trusted: the harness' SHA-256 based merkle code (checked against the generator's block builder, which uses the same root function but an independent path walk), the DD step that re-issues the block-processor loop body.",
+        "runs": [
+            {"pkg": "internal/spynode", "test": "TestVerif_C04"},
+        ],
+    },
+    "C06": {
+        "level": "exploration",
+        "technique": "runtime monitoring: offline checker over recorded handler callbacks against generator ground truth (which unconfirmed transaction loses an outpoint to a confirmed one) for generated double-spend histories driven into the real tx and block processing code",
+        "level_text": "Generated histories over 4 outpoints with 3-8 transactions, arriving from generated sources and interleaved with blocks that confirm non-conflicting subsets (winner seen or unseen, relevant or not, several conflicts per block), run through the real tx and block processing; for every delivered unconfirmed loser the callbacks must contain a cancelled+unsafe update after the confirming block's HandleHeaders, none for transactions without a confirmed conflict, the loser must be gone from the mempool, and the block's own transactions must pass the C04 proof check. Exploration.",
+        "level_note": 'Trusted: generator ground truth of who loses which outpoint; sequential DD engine (block processing and tx processing do not race here).',
+        "runs": [
+            {"pkg": "internal/spynode", "test": "TestVerif_C06"},
         ],
     },
 }
